@@ -38,7 +38,7 @@ CHECKS = {
          "Trusts go/ssa, this checker's term evaluator and AST matcher, circl expander/HashToField, crypto/elliptic, GOROOT crypto/ecdsa source.",
          "DESIGN.md §4 C12"),
  "C15": ("symbolic layout/binding terms with in-place mutation history on SSA; reachability to entropy sources; mutable-global query over may-write summaries",
-         "Sound static analysis of structural necessary conditions: the blinding scalar is SetBytes(SHA-512(blind||0x00||context)[:32]) - the same term at all three sites; blind/unblind/blinded-sign shapes; wrappers forward nil contexts and the right argument slots; no entropy source is reachable and no mutable package-level state is touched outside sync.Once. Does not prove the algebra or acceptance by a standard verifier.",
+         "Sound static analysis of structural necessary conditions: the blinding scalar is SetBytes(SHA-512(blind||0x00||context)[:32]) - the same term at all three sites, assembled by appending to a fresh buffer (never to an argument's slice); blind/unblind/blinded-sign shapes; wrappers forward nil contexts and the right argument slots; no entropy source is reachable and no mutable package-level state is touched outside sync.Once. Does not prove the algebra or acceptance by a standard verifier.",
          "Trusts go/ssa, VTA call graph with Once.Do resolved at the site, this checker's term evaluator and effect summaries, crypto/sha512.",
          "DESIGN.md §4 C15"),
  "C16": ("may-write effect analysis (parameter-sensitive, one-level field-sensitive bottom-up summaries over SSA incl. third-party bodies; reviewed std table) + whole-tail provenance of append bases",
@@ -70,7 +70,7 @@ CHECKS = {
          "Trusts go/ssa, this checker's term evaluator, range prover and affine residue domain; a padding size computed with branches (outside +,-,*,/,% of the length) is reported as undecided (failing).",
          "DESIGN.md §4 C20"),
  "C01": ("writer/reader layout agreement and parameter agreement between the two ends of each protocol: symbolic byte-layout terms, checked read sequences, widths from go/types constants, return-term bindings on SSA",
-         "Sound static analysis of structural necessary conditions of an honest run completing: request encoders and the decoders the issuers use agree (widths = length of what the client stores); each issuer's response layout is what its client splits and parses; tokens are type||nonce||SHA-256(challenge)||key id||authenticator with widths 48/256/256/64 and are decoded from state token input || finalize output; constructors bind the token input to the type constant, nonce, challenge digest and key id; both ends name the same suite, hash, info strings, labels and exported-secret length. Does not decide that the cryptography completes and verifies (dependencies' contract).",
+         "Sound static analysis of structural necessary conditions of an honest run completing: request encoders and the decoders the issuers use agree (widths = length of what the client stores); each issuer's response layout is what its client splits and parses; tokens are type||nonce||SHA-256(challenge)||key id||authenticator with widths 48/256/256/64 and are decoded from state token input || finalize output; constructors bind the token input to the type constant, nonce, challenge digest and key id; both ends name the same suite, hash, info strings, labels and exported-secret length; the type-3 issuer's unpadding inverts the client's origin padding for every name length (rules shared with C20). Does not decide that the cryptography completes and verifies (dependencies' contract).",
          "Trusts go/types, go/ssa, this checker's term and reader extractors, the layout table (c04.go), circl/go-hpke/crypto as documented.",
          "DESIGN.md §4 C01"),
  "C11": ("call-graph reachability to entropy sources (VTA, Once.Do resolved at the site, std bodies as leaves) with positive control; parameter liveness by symbolic binding; mutable-global query over may-write summaries",
